@@ -131,6 +131,17 @@ func genC23(g *Gen, tier string, w *bufio.Writer) {
 				continue
 			}
 			fmt.Fprintln(w, "proj "+mask+" "+d.op(g.U64()>>1))
+			// no column used at all (COUNT(*), SELECT 1): still one record per row of the file, not per physical line —
+			// quoted cells with line breaks and empty lines in them
+			for r := range d.rows {
+				for c := range d.rows[r] {
+					if g.Chance(1, 6) {
+						d.rows[r][c] = Pick(g, []string{"line\nbreak", "\n", "a\n\nb", "x\n", "\ny", "q\"\n\"z", "1\n2\n3"})
+					}
+				}
+			}
+			fmt.Fprintln(w, "proj 0 "+d.op(g.U64()>>1))
+			fmt.Fprintln(w, "proj "+Pick(g, []string{"1", "10", "01"})+" "+d.op(g.U64()>>1))
 		} else {
 			fmt.Fprintln(w, "proj "+mask+" "+jsonOp(g.U64()>>1, genJSONDoc(g, Pick(g, []int{1, 2, 5, 20, 101, 120}), g.Bool())))
 		}
